@@ -108,7 +108,7 @@ def opOf : Sexp → Option Op
   | .list [.atom "exclude", .list ks, i] => do
       pure (.exclude ((← ks.mapM keyOf).map pathOfKeyK) (← boolOf i))
   | .list [.atom "flatten", .atom sep, i] => do pure (.flatten (← unhex sep) (← boolOf i))
-  | .list [.atom "unflatten", .atom sep, i] => do pure (.unflatten (← charOf (← unhex sep)) (← boolOf i))
+  | .list [.atom "unflatten", .atom sep, i] => do pure (.unflatten (← unhex sep) (← boolOf i))
   | .list [.atom "split", .list sets, i, s] => do
       let ss ← sets.mapM fun (ks : Sexp) => match ks with
         | Sexp.list l => do pure ((← l.mapM keyOf).map pathOfKey)
@@ -166,6 +166,11 @@ def handleC04 (cmd : String) (args : List Sexp) : Option Sexp :=
       let ks ← probes.mapM keyOf
       let (t', out) := step t op
       pure (.list [entryTo t', outTo out, obsTo t' ks])
+  | "c04.member", [t, op] => do
+      let t ← entryOf t
+      let op ← opOf op
+      let (t', out) := C04.stepMember t op
+      pure (.list [entryTo t', outTo out])
   | "c04.dstep", [t, op] => do
       let t ← entryOf t
       let op ← opOf op
